@@ -17,15 +17,10 @@ ALLOWED_AXIOMS = []
 IMPL_TIMEOUT = 10.0
 COQ_SHARD = 80
 
-# flip to True once the proposed KNOWN_FINDINGS entry 'stale-width-after-remove-columns'
-# (see c13.notes.md) is registered: the oracle then also checks the round trip at points
-# where remove_columns() dropped a break-by column of an already printed table.
-CHECK_STALE_REMOVE = False
-
 RULE = ("life-cycle programs on one PPTable: constructor (fmt / limits= / skip_columns=, explicit fields with "
         "default, enum and custom-width field types), then 3-8 operations out of print, t.fmt = <generated fmt> "
         "(mostly valid: repeated fields, modifiers, break-by, fixed/ranged/'(w)'/hidden widths, blanks, limits, "
-        "'*', separators only; plus a malformed stream), t.fmt = str(t.fmt), remove_columns, rebuild through "
+        "'*', separators only; plus a malformed stream), t.fmt = str(t.fmt), remove_columns, t.fmt.set_limits(..), rebuild through "
         "PPTable(records, fmt=str(t.fmt), fields=...), and 'check' (on copies of the table: render; "
         "t.fmt = str(t.fmt) and render; PPTable(records, fmt=str(t.fmt), same fields) and render; t.fmt = '' / ';' "
         "/ ';;' and render).  0-14 records so that small limits are exceeded.  Field names from the stated character "
@@ -37,7 +32,10 @@ RULE = ("life-cycle programs on one PPTable: constructor (fmt / limits= / skip_c
         "fmt_obj=<shared object> or fmt_obj=<another table's live .fmt object> (mostly over other records than the "
         "source's; limits= / skip_columns= sometimes), 5-12 interleaved operations (the ones above) on random tables, a "
         "final check of every table; after every operation str(.fmt) of ALL tables and shared objects is observed.  "
-        "Non-trivial session = a check of a table with a ranged column after a table was made with fmt_obj=.")
+        "Non-trivial session = a check of a table with a ranged column after a table was made with fmt_obj=.  "
+        "AFTER-PRINT programs: tables with break-by columns and small limits over grouped records are rendered, then a "
+        "(break-by) column is removed / the limits are changed through t.fmt.set_limits, then checked, rendered, "
+        "checked (the former finding stale-width-after-remove-columns, repaired by 38581d5).")
 TRUSTED_BASE = [
     "gen/C13_Consts.v: the literal pieces of to_fmt_str, _parse_col_fmt, _parse_cols_fmt, both _get_fmt_str, "
     "_fmt_str_split, _parse_vis_lines_fmt, the keys of PPEnumFieldType._FMT_MODIFIERS and FieldType's default width "
@@ -55,9 +53,8 @@ ASSUMPTIONS = [
     "the constructor round trip is claimed with the same fields/fields_types passed along and for tables with at "
     "least one column (a table without columns cannot be rendered at all)",
     "life points = fresh / printed / re-formatted / made with fmt_obj= from a shared format object or from another "
-    "table's format object, with any operations on sibling tables in between; remove_columns() on a printed table is "
-    "exercised by the correspondence but the oracle does not demand the round trip after it removed a break-by column "
-    "(see notes)",
+    "table's format object, after remove_columns() / PPTableFormat.set_limits() at any moment (also on a rendered "
+    "table), with any operations on sibling tables in between",
     "all tables of a session have one record structure given as fields=[names] (+ fields_types); format objects are "
     "handed over at the moment of the construction (no format object is held across a later fmt assignment)",
 ]
@@ -370,9 +367,11 @@ def gen_program(rng, mods, ft_min, ft_max, flavour):
             ops.append(["self"])
         elif r < 0.63:
             ops.append(["remove", rng.sample(names, rng.choice([1, 1, min(2, nf)])) if rng.random() < 0.9 else ["zz"]])
-        elif r < 0.70:
+        elif r < 0.69:
+            ops.append(["limits", rng.choice(LIMS) if rng.random() < 0.9 else None])
+        elif r < 0.74:
             ops.append(["rebuild"])
-        elif r < 0.75:
+        elif r < 0.78:
             ops.append(["set", rng.choice(["", ";", ";;", " ", ";;;", "; ;"])])
         else:
             ops.append(["check"])
@@ -488,9 +487,11 @@ def gen_session(rng, mods, ft_min, ft_max, flavour):
                 o = ["set", gen_fmt(rng, fields, mods, malformed and rng.random() < 0.6)[0]]
             elif r < 0.81:
                 o = ["self"]
-            elif r < 0.88:
+            elif r < 0.87:
                 o = ["remove", rng.sample(names, rng.choice([1, 1, min(2, nf)])) if rng.random() < 0.9 else ["zz"]]
-            elif r < 0.94:
+            elif r < 0.91:
+                o = ["limits", rng.choice(LIMS) if rng.random() < 0.9 else None]
+            elif r < 0.95:
                 o = ["rebuild"]
             else:
                 o = ["set", rng.choice(["", ";", ";;", " ", "; ;"])]
@@ -535,6 +536,49 @@ def fixed_sessions(ft_min, ft_max):
     ]
 
 
+def gen_after_print(rng, ft_min, ft_max):
+    """remove_columns / set_limits on an ALREADY RENDERED table whose visible records depend on break-by
+    lines and limits (the former finding stale-width-after-remove-columns): the state detected at the
+    earlier rendering must not survive"""
+    nf = rng.choice([2, 3, 3, 4])
+    names = rng.sample(["g", "k", "name", "a b", "x(1)", "né", "lv", "-"], nf)
+    fields = [{"n": n, "t": "d", "min": ft_min, "max": ft_max} for n in names]
+    nrec = rng.choice([4, 5, 6, 7, 8, 9, 11, 14])
+    groups = sorted(rng.choice([1, 1, 2, 2, 3]) for _ in range(nrec))
+    recs = []
+    for i in range(nrec):
+        row = [groups[i]]
+        for _ in names[1:]:
+            row.append(rng.choice(["x", "yy", "zzzzzzzz", "a longer text", 1, 22, 123456, "", None]))
+        recs.append(row)
+    cols = []
+    for j, n in enumerate(names):
+        c = n + ("!" if j == 0 or rng.random() < 0.2 else "")
+        r = rng.random()
+        if r < 0.5:
+            c += ":" + rng.choice(["1-10", "0-4", "2-30", "1-999", "3-5"])
+        elif r < 0.65:
+            c += ":" + rng.choice(["2", "5", "0"])
+        cols.append(c)
+    fmt = ",".join(cols) + ";" + rng.choice(["1:1", "2:2", "1:2", "0:2", "2:0", "3:1", "1:0", "*", "30:20"])
+    ops = [["print"]]
+    for _ in range(rng.choice([1, 2, 2, 3])):
+        r = rng.random()
+        if r < 0.45:
+            ops.append(["remove", [names[0]]])
+        elif r < 0.6:
+            ops.append(["remove", rng.sample(names, rng.choice([1, min(2, nf)]))])
+        else:
+            ops.append(["limits", rng.choice(LIMS + [[1, 1], [2, 2], [0, 1]])])
+        ops.append(["check"])
+        if rng.random() < 0.7:
+            ops.append(["print"])
+            ops.append(["check"])
+        if rng.random() < 0.2:
+            ops.append(["self"])
+    return {"fields": fields, "recs": recs, "fmt": fmt, "lim": None, "skip": None, "ops": ops, "flavour": "after-print"}
+
+
 def _c(fields, recs, fmt, ops, lim=None, skip=None, flavour="valid"):
     return {"fields": fields, "recs": recs, "fmt": fmt, "lim": lim, "skip": skip, "ops": ops, "flavour": flavour}
 
@@ -566,6 +610,14 @@ def fixed_cases(ft_min, ft_max):
             ["check"], ["set", ";*"], ["print"], ["check"]]),
         _c(f3, [[i, i // 9, "n" * (i % 5)] for i in range(60)], "id,level!:2,name:0-3", [["print"], ["check"], ["self"], ["check"]],
            lim=[40, None]),
+        # the witness of the former finding stale-width-after-remove-columns (repaired by 38581d5): a break-by column
+        # removed / the limits changed after a rendering
+        _c([d("g"), d("k"), d("name")], [[1, 0, "x"], [2, 1, "yyyyyyyy"]] + [[2, i, "z"] for i in range(2, 7)],
+           "g!:2,k:1,name:1-10;2:2", [["print"], ["remove", ["g"]], ["check"], ["print"], ["check"], ["limits", [1, 1]],
+                                       ["check"], ["print"], ["check"]]),
+        _c([d("g"), d("k"), d("name")], [[1, 0, "x"], [2, 1, "yyyyyyyy"]] + [[2, i, "z"] for i in range(2, 7)],
+           "k,name:1-10;1:1", [["print"], ["limits", [3, 3]], ["check"], ["print"], ["limits", [1, 1]], ["check"],
+                               ["limits", None], ["check"], ["remove", ["zz"]], ["check"]]),
     ]
     return out
 
@@ -582,6 +634,8 @@ def gen_cases(rng, tier):
         k = i % 10
         flavour = "valid" if k < 7 else ("malformed" if k < 9 else "badnames")
         cases.append(gen_program(rng, mods, ft_min, ft_max, flavour))
+    for i in range(600 if big else 40):
+        cases.append(gen_after_print(rng, ft_min, ft_max))
     cases.extend(fixed_sessions(ft_min, ft_max))
     for i in range(2400 if big else N_SESSIONS_QUICK):
         cases.append(gen_session(rng, mods, ft_min, ft_max, "session-malformed" if i % 8 == 7 else "session"))
@@ -593,6 +647,8 @@ def search_cases(rng, tier):
     out = fixed_cases(ft_min, ft_max)
     for _ in range(3000):
         out.append(gen_program(rng, mods, ft_min, ft_max, "valid"))
+    for _ in range(500):
+        out.append(gen_after_print(rng, ft_min, ft_max))
     out.extend(fixed_sessions(ft_min, ft_max))
     for _ in range(1500):
         out.append(gen_session(rng, mods, ft_min, ft_max, "session"))
@@ -676,6 +732,9 @@ def _table_op(ppobj, t, o, build, recs):
         return t, _try(do)
     if k == "remove":
         t.remove_columns(list(o[1]))
+        return t, str(t.fmt)
+    if k == "limits":
+        t.fmt.set_limits(None if o[1] is None else tuple(o[1]))
         return t, str(t.fmt)
     if k == "rebuild":
         r = _try(lambda: build(str(t.fmt)))
@@ -846,6 +905,8 @@ def _coq_op(o):
         return "OSelf"
     if k == "remove":
         return f"ORemove {SX.clist(SX.cstr(n) for n in o[1])}"
+    if k == "limits":
+        return f"OLimits {SX.copt(o[1], _coq_lim)}"
     if k == "rebuild":
         return "ORebuild"
     return "OCheck"
@@ -917,7 +978,7 @@ def _sx_op(o, st):
         return _sx_printed(st)
     if k in ("set", "self", "rebuild"):
         return _sx_res_str(st)
-    if k == "remove":
+    if k in ("remove", "limits"):
         return SX.s(st)
     return [_sx_printed(st["A"]), _sx_then(st["B"]), _sx_then(st["C"])] + [_sx_then(x) for x in st["E"]] + [_sx_then(st["D"])]
 
@@ -981,7 +1042,8 @@ class _Judge:
     def __init__(self, fmt0, neg, what):
         self.neg = neg
         self.printed = False      # widths negotiated since the last (re)format
-        self.stale = False
+        self.stale = None         # a column was removed / the limits were changed after a rendering: the
+        #                           failures at such points keep their own signatures (former finding, fixed by 38581d5)
         self.prev_fmt = fmt0
         self.hist = []
         self.what = what
@@ -993,14 +1055,14 @@ class _Judge:
     def feed(self, o, st):
         out = self.out
         k = o[0]
-        self.hist.append(k if k != "set" else f"set {o[1]!r}")
+        self.hist.append(k if k not in ("set", "limits", "remove") else f"{k} {o[1]!r}")
         where = f"after [{', '.join(self.hist)}] {self.what() if callable(self.what) else self.what}"
         if k == "print":
             self.printed = True
             self.prev_fmt = st["fmt"]
         elif k == "set":
             if st[0] == "ok":
-                self.printed = self.stale = False
+                self.printed, self.stale = False, None
                 self.prev_fmt = st[1]
         elif k in ("self", "rebuild"):
             if st[0] != "ok":
@@ -1008,11 +1070,17 @@ class _Judge:
                             f"str(t.fmt) = {self.prev_fmt!r} rejected by the {'setter' if k == 'self' else 'constructor'} "
                             f"with {st[1]} {where}"))
             else:
-                self.printed = self.stale = False
+                self.printed, self.stale = False, None
                 self.prev_fmt = st[1]
         elif k == "remove":
-            if self.printed and "!" in self.prev_fmt and st != self.prev_fmt:
-                self.stale = True
+            if self.printed and st != self.prev_fmt:
+                self.stale = self.stale or "stale-width-after-remove-columns"
+            self.prev_fmt = st
+        elif k == "limits":
+            if self.printed and o[1] is not None:
+                self.stale = self.stale or "stale-state-after-set-limits"
+                if any(isinstance(x, int) and x < 0 for x in o[1]):
+                    self.neg = True
             self.prev_fmt = st
         elif k == "check":
             s = st["s"]
@@ -1027,14 +1095,12 @@ class _Judge:
                     out.append(("empty-fmt-rejected", f"t.fmt = {x!r} raised {d['err']} {where}"))
             if a["view"][0] != "ok":
                 return         # the table cannot be rendered at all (no columns): nothing to compare
-            if self.stale and not CHECK_STALE_REMOVE:
-                return
             for nm, d in routes:
                 if "err" in d:
                     continue
                 if nm == "constructor" and self.neg:
                     continue
-                sig = "stale-width-after-remove-columns" if self.stale else "rendering-differs"
+                sig = self.stale or "rendering-differs"
                 if d["h"] != a["h"]:
                     out.append((sig, f"rendering through the {nm} with str(t.fmt) = {s!r} differs from the table's "
                                      f"own rendering: {d['view']} vs {a['view']} {where}"))
@@ -1045,7 +1111,7 @@ class _Judge:
                 if "err" in d:
                     continue
                 if d["h"] != a["h"] or d["fmt"] != a["fmt"]:
-                    sig = "stale-width-after-remove-columns" if self.stale else "empty-fmt-changes"
+                    sig = self.stale or "empty-fmt-changes"
                     out.append((sig, f"t.fmt = {x!r} changed the table: {d['view']} {d['fmt']!r} vs "
                                      f"{a['view']} {a['fmt']!r} {where}"))
 
@@ -1218,10 +1284,12 @@ LEVEL_TEXT = ("Full at the level of the format state, for the stated domain: col
               "changes only its own table).  That the implementation's mutable ReprColumn / ReprStructure / PPTableFormat "
               "objects behave like this deep-copy model is TESTED by the correspondence on generated sessions (digest of "
               "every step + str(.fmt) of all tables and shared objects after every step) and by the oracle per table.  "
-              "Outside the claim: value "
-              "paths / enhanced fmt (DESIGN section 7), tables without columns, negative limits, remove_columns of a "
-              "break-by column of an already rendered table (remove_break_column_refuted shows the model's views "
-              "differ there; candidate finding in c13.notes.md).  The literal pieces of serializer and parser, the enum "
+              "remove_columns and PPTableFormat.set_limits are "
+              "unrestricted members of the histories (R_remove, R_limits without side conditions): since the repair "
+              "38581d5 they forget the negotiated widths and any_lines_skipped (remove_columns_resets, "
+              "remove_and_limits_keep_coherent; remove_break_column_repaired is the witness of the former finding "
+              "stale-width-after-remove-columns, now with equal views).  Outside the claim: value "
+              "paths / enhanced fmt (DESIGN section 7), tables without columns, negative limits.  The literal pieces of serializer and parser, the enum "
               "modifiers and FieldType's default bounds are re-read from the source on every run (consts_ok).")
 LEVEL_NOTE = ("Trusted: Coq kernel + vm_compute; fidelity of the hand model (checked on ~430 / ~6000 life-cycle programs and "
               "~175 / ~2400 multi-table sessions per run by per-step digests of str(t.fmt), errors' classes, widths and body line counts; not proved); the hand "
